@@ -95,3 +95,36 @@ void hp_hwloc__osdev_type_snprintf_short(void)
   CHECK_SNPRINTF_CONTRACT(r, buf, size);
   VERIF_CANARY();
 }
+
+/* abstract strchr (its result is only compared with NULL in the code under verification): requires a
+ * readable first byte, returns NULL or a pointer to some byte of the same object */
+#ifndef INFOMAX
+#define INFOMAX 8
+#endif
+void hp_hwloc_obj_attr_snprintf(void)
+{
+  struct hwloc_obj obj = nondet_obj();
+  union hwloc_obj_attr_u attr = nondet_attr();
+  static struct hwloc_info_s infos[INFOMAX];
+  static char name[4], value[4], sep[3];
+  size_t size = nondet_size_t();
+  unsigned long flags = nondet_ulong();
+  unsigned k = nondet_unsigned();
+  char *buf;
+  int r;
+  __CPROVER_assume(size <= BUFMAX);
+  VERIF_GHOSTS();
+  obj.attr = &attr;
+  __CPROVER_assume(obj.infos.count <= INFOMAX);
+  obj.infos.array = infos;
+  /* every info pair points to NUL-terminated strings (contents arbitrary, <= 3 chars) */
+  name[3] = 0; value[3] = 0; sep[2] = 0;
+  if (k < INFOMAX) { infos[k].name = name; infos[k].value = value; }
+  __CPROVER_assume(__CPROVER_forall { unsigned j; (j < INFOMAX) ==> (infos[j].name == name && infos[j].value == value) });
+  /* C01 invariant the function asserts: bridges have a PCI downstream */
+  __CPROVER_assume(obj.type != HWLOC_OBJ_BRIDGE || attr.bridge.downstream_type == HWLOC_OBJ_BRIDGE_PCI);
+  buf = verif_mkbuf(size);
+  r = hwloc_obj_attr_snprintf(buf, size, &obj, sep, flags);
+  CHECK_SNPRINTF_CONTRACT(r, buf, size);
+  VERIF_CANARY();
+}
